@@ -2925,7 +2925,7 @@ mod live {
         let sent = p.send_frs(&frs);
         let (fid, ping) = p.ping_frame();
         let _ = sent && p.send_frs(&[ping]);
-        let _ = p.await_fence(fid, react_bound());
+        let burst_fence = p.await_fence(fid, react_bound());
         // give a queued RST_STREAM the time of one more round trip
         if p.alive() {
             let _ = p.ping_fence(react_bound());
@@ -2955,7 +2955,10 @@ mod live {
                     sink.obs("back.flood_below_threshold_tolerated", 1);
                 }
             } else if n >= 2 * thr {
-                if !tripped && started.elapsed() < Duration::from_millis(900) {
+                if !tripped && started.elapsed() < Duration::from_millis(900) && burst_fence != Fence::Acked {
+                    sink.inconclusive("backend flood: no GOAWAY and no acknowledgement of the PING behind the burst");
+                } else if !tripped && started.elapsed() < Duration::from_millis(900) {
+                    // the PING behind the burst was acknowledged: the whole burst was processed
                     sink.violation(
                         &format!("h2hostile/back/flood/not_stopped_at_twice_threshold/{what}"),
                         "a backend sent twice the configured flood threshold in one burst and sozu neither sent GOAWAY nor closed the backend connection",
@@ -3135,12 +3138,34 @@ mod live {
                         witness(p, expected, observed(p)),
                     );
                 } else {
-                    sink.obs(&format!("{side}.reaction/ignored"), 1);
-                    sink.violation(
-                        &format!("h2hostile/{side}/reaction/stream_error_not_signalled/{rule}"),
-                        "a frame that RFC 9113 makes a stream error got neither RST_STREAM nor GOAWAY although later PINGs were acknowledged",
-                        witness(p, expected, observed(p)),
-                    );
+                    // Neither signal so far. A PING sent now is processed after the frame (frames
+                    // are processed in order, and what sozu queues for a frame goes out before the
+                    // acknowledgement of a later PING): its acknowledgement without RST_STREAM,
+                    // GOAWAY or close before it decides, whatever the clock says.
+                    match p.ping_fence(react_bound()) {
+                        Fence::Acked if !p.o.rst.contains_key(&sid) => {
+                            sink.obs(&format!("{side}.reaction/ignored"), 1);
+                            sink.violation(
+                                &format!("h2hostile/{side}/reaction/stream_error_not_signalled/{rule}"),
+                                "a frame that RFC 9113 makes a stream error got neither RST_STREAM nor GOAWAY although a PING sent after it was acknowledged",
+                                witness(p, expected, observed(p)),
+                            );
+                        }
+                        Fence::Acked => {
+                            // the RST_STREAM came with this round trip
+                            sink.obs(&format!("{side}.reaction/rst_stream"), 1);
+                            let code = p.o.rst.get(&sid).copied().unwrap_or(0);
+                            if !codes.contains(&code) {
+                                sink.violation(
+                                    &format!("h2hostile/{side}/reaction/wrong_rst_stream_code/{rule}"),
+                                    "sozu answered a stream error with a RST_STREAM whose error code is not among those RFC 9113 allows for the violated rule",
+                                    witness(p, expected, observed(p)),
+                                );
+                            }
+                        }
+                        Fence::Dead => sink.inconclusive("late GOAWAY or close after a stream-error frame"),
+                        Fence::Silent => sink.inconclusive("no reaction and no PING ack after a stream-error frame"),
+                    }
                 }
             }
             Label::Valid => {
@@ -4728,12 +4753,16 @@ mod live {
                 } else {
                     sink.obs("exempt:front.flood_closed_without_goaway", 1);
                 }
-            } else if took < Duration::from_millis(900) {
+            } else if took < Duration::from_millis(900) && follow.is_ok() {
+                // the request sent behind the burst was answered: the whole burst was processed
+                // (frames are processed in order) inside one flood window, and nothing tripped
                 sink.violation(
                     &format!("h2hostile/front/flood/not_stopped_at_twice_threshold/{kind}"),
-                    "the peer sent twice the configured threshold in one burst and sozu neither sent GOAWAY nor closed the connection",
+                    "the peer sent twice the configured threshold in one burst, sozu answered the request sent behind the burst and neither sent GOAWAY nor closed the connection",
                     wit(&p, format!("{n} >= 2 x {thr} frames in one burst: GOAWAY(ENHANCE_YOUR_CALM) and close")),
                 );
+            } else if took < Duration::from_millis(900) {
+                sink.inconclusive("flood: no GOAWAY and no answer to the request behind the burst");
             } else {
                 sink.inconclusive("flood burst took longer than the flood window");
             }
@@ -6248,6 +6277,9 @@ mod live {
     ///   scenario held.
     /// * `Timed`: something did *not* happen within an allowance, or a valid request was not
     ///   answered 200: time- and availability-shaped, a candidate until reproduced alone.
+    ///   ("Connection / stream error not raised" and "flood not stopped" are not of this kind: they
+    ///   are raised only behind a barrier, the acknowledgement of a PING or the answer to a request
+    ///   sent after the offending frames, which proves that sozu processed them.)
     #[derive(Clone, Copy, PartialEq, Eq, Debug)]
     enum Shape {
         Hard,
@@ -6257,12 +6289,9 @@ mod live {
 
     fn shape(sig: &str) -> Shape {
         const HARD: [&str; 6] = ["/panic@", "worker_thread_ended", "/overcommit/", "response_of_another_stream", "response_octets_of_another_stream", "reachable_backend_counted_as_connection_failure"];
-        const TIMED: [&str; 15] = [
+        const TIMED: [&str; 12] = [
             "not_served",
-            "not_stopped",
             "not_closed",
-            "not_signalled",
-            "not_raised",
             "not_released",
             "connection_broken",
             "traffic_rejected",
@@ -6276,7 +6305,9 @@ mod live {
         ];
         if HARD.iter().any(|h| sig.contains(h)) {
             Shape::Hard
-        } else if TIMED.iter().any(|t| sig.contains(t)) {
+        } else if TIMED.iter().any(|t| sig.contains(t)) || std::env::var_os("VH_C15_ALL_TIMED").is_some() {
+            // (the variable: debugging aid, sends every verdict that is not hard through the
+            // isolated re-runs)
             Shape::Timed
         } else {
             Shape::Positive
@@ -6407,11 +6438,13 @@ mod live {
             if n >= 8 {
                 break; // every further signature stays inconclusive
             }
-            // reproduction may depend on timing: up to six scenarios that raised the signature are
-            // tried, each alone on a fresh cell; two of them must show it again
+            // reproduction may depend on timing: up to six re-runs, each alone on a fresh cell, taken
+            // in turn from the (up to six) scenarios that raised the signature; a single scenario is
+            // re-run again and again (the scenario is a function of its seed, cell and number: the
+            // same connection, the same frames in the same states). Two re-runs must show it again.
             let specs: Vec<&Spec> = all.iter().filter(|s| &s.1 == sig).map(|s| &s.0).take(6).collect();
             let mut hits = 0;
-            for spec in specs {
+            for spec in specs.iter().cycle().take(6).copied() {
                 let mut iso = match Cell::start(1_000_000 + spec.cell) {
                     Ok(c) => c,
                     Err(e) => {
